@@ -525,3 +525,129 @@ class Depth:
         self.active.pop()
         self.memo[w] = (net[0], peak[0], rmax[0])
         return self.memo[w]
+
+
+# ---------------------------------------------------------------------------------------------
+def kernel_semantics(prog):
+    """Symbolic effect of every straight-line native on the data stack, derived from the IR of its case body:
+    {native name: {slot delta: expression string}} and {'stores': [...]} for context stores.  slot s(-1) = top of stack on entry."""
+    f = next((x for x in prog.unit['functions'] if x['name'] == prog.runfn and not x['decl']), None)
+    F = irf.Func(prog.unit, f)
+    roots = {}
+    for i in F.insts.values():
+        if i['op'] == 'load' and F.block_of[i['id']] == F.entry and i['ty'] == 'i32*':
+            base, off = F.addr_of(i['ops'][0])
+            if base == {'k': 'a', 'v': 0} and off == 0:
+                roots['dp'] = i['id']
+    H = [i for i in F.insts.values() if i['op'] == 'phi' and any(o == {'k': 'i', 'v': roots['dp']} for o in i['ops'])][0]
+    hb = F.block_of[H['id']]
+    sw = sorted([i for i in F.insts.values() if i['op'] == 'switch'], key=lambda i: -len(i['ops']))[0]
+    ops = sw['ops']
+    cases = {ops[k]['v']: ops[k + 1]['v'] for k in range(2, len(ops), 2)}
+    bid = {b['id']: b for b in F.blocks}
+
+    def pdelta(o, depth=0):
+        """delta (in slots) of a pointer into the data stack relative to dp on entry of the native; None if not such a pointer"""
+        if o['k'] != 'i' or depth > 12:
+            return None
+        if o['v'] == H['id']:
+            return 0
+        i = F.insts[o['v']]
+        if i['op'] == 'bitcast':
+            return pdelta(i['ops'][0], depth + 1)
+        if i['op'] == 'getelementptr' and not i.get('var') and i.get('off') is not None:
+            d = pdelta(i['ops'][0], depth + 1)
+            return None if d is None else d + i['off'] // 4
+        return None
+
+    def expr(o, depth=0):
+        if o['k'] == 'c':
+            return str(o['v'])
+        if o['k'] == 'null':
+            return '0'
+        if o['k'] == 'a':
+            return 'ctx' if o['v'] == 0 else 'arg%d' % o['v']
+        if o['k'] in ('g', 'f'):
+            return '@' + o['v']
+        if o['k'] in ('cegep', 'cecast'):
+            return expr(o['base'], depth + 1) + ('+%d' % o['off'] if o.get('off') else '')
+        if o['k'] != 'i' or depth > 14:
+            return '?'
+        i = F.insts[o['v']]
+        op = i['op']
+        if op == 'load':
+            d = pdelta(i['ops'][0])
+            if d is not None:
+                return 's(%d)' % d
+            return 'load%d(%s)' % (i['size'], expr(i['ops'][0], depth + 1))
+        if op in ('zext', 'sext', 'trunc'):
+            src = i['ops'][0]
+            sty = F.insts[src['v']]['ty'] if src['k'] == 'i' else None
+            inner = expr(src, depth + 1)
+            if op == 'trunc' or sty in (None, 'i32', 'i64'):
+                return inner if op != 'trunc' or i['ty'] in ('i32', 'i64') else 'trunc%s(%s)' % (i['ty'][1:], inner)
+            return '%s%s(%s)' % (op, sty[1:], inner)
+        if op in ('bitcast', 'inttoptr', 'ptrtoint'):
+            return expr(i['ops'][0], depth + 1)
+        if op == 'sub' and i['ops'][0]['k'] == 'c' and i['ops'][0]['v'] == 0:
+            return 'neg(%s)' % expr(i['ops'][1], depth + 1)
+        if op == 'xor' and i['ops'][1]['k'] == 'c' and i['ops'][1]['v'] == -1:
+            return 'not(%s)' % expr(i['ops'][0], depth + 1)
+        if op in ('add', 'sub', 'mul', 'and', 'or', 'xor', 'shl', 'lshr', 'ashr', 'udiv', 'sdiv', 'urem', 'srem'):
+            return '%s(%s,%s)' % (op, expr(i['ops'][0], depth + 1), expr(i['ops'][1], depth + 1))
+        if op == 'icmp':
+            return 'icmp_%s(%s,%s)' % (i['pred'], expr(i['ops'][0], depth + 1), expr(i['ops'][1], depth + 1))
+        if op == 'getelementptr':
+            base = expr(i['ops'][0], depth + 1)
+            parts = [base]
+            if i.get('off'):
+                parts.append(str(i['off']))
+            for vo, sc in i.get('var') or []:
+                parts.append(('%d*' % sc if sc != 1 else '') + expr(vo, depth + 1))
+            return '+'.join(parts) if len(parts) > 1 else base
+        if op == 'call':
+            return '%s(%s)' % (i.get('callee') or 'icall', ','.join(expr(a, depth + 1) for a in i['ops']))
+        if op == 'select':
+            return 'select(%s,%s,%s)' % tuple(expr(a, depth + 1) for a in i['ops'])
+        return '?' + op
+
+    res = {}
+    for opc, tb in cases.items():
+        name = prog.natives[opc]
+        # straight-line natives only: follow unique successors until the header / latch
+        blocks = []
+        b = tb
+        okk = True
+        seen = set()
+        while b != hb and b not in seen:
+            seen.add(b)
+            blocks.append(b)
+            if len(F.succ[b]) != 1:
+                okk = False
+                break
+            b = F.succ[b][0]
+            if len(F.pred[b]) > 1:
+                break          # merged into the shared latch
+        if not okk:
+            continue
+        slots, stores, calls = {}, [], []
+        for b in blocks:
+            for i in bid[b]['insts']:
+                if i['op'] == 'store':
+                    d = pdelta(i['ops'][1])
+                    if d is not None:
+                        slots[d] = expr(i['ops'][0])
+                    else:
+                        a = expr(i['ops'][1])
+                        if a.startswith('ctx'):
+                            stores.append('store%d(%s)=%s' % (i['size'], a, expr(i['ops'][0])))
+                elif i['op'] == 'call' and not (i.get('callee') or '').startswith('llvm.dbg') and i['ty'] == 'void':
+                    calls.append(expr({'k': 'i', 'v': i['id']}))
+        res[name] = dict(slots=slots, stores=stores, calls=calls)
+    return res
+
+
+def ctx_base_offset(prog):
+    """offset applied to arg0 (the cpu sub-structure) to reach the context: CTX = (ctx *)((char *)t0ctx - offsetof(ctx, cpu))"""
+    pre = 'eng.' if prog.key.startswith('hs_') else ''
+    return -prog.layouts.field(prog.ctxname, pre + 'cpu')[0]
